@@ -312,7 +312,8 @@ def run_shard(spec):
         cases[4].update(gen_fixed("popen", "thread", "callback_service", "sigkill"))
     extra_fixed = []
     if spec["shard"] == 5:
-        extra_fixed += [dict(gen_fixed("popen", "thread", "sleep", "sigkill"), worker_debug=True), dict(gen_fixed("popen", "main_thread_only", "idle", "close_connection"), worker_debug=True)]
+        extra_fixed += [dict(gen_fixed("popen", "thread", "sleep", "sigkill"), worker_debug=True), dict(gen_fixed("popen", "main_thread_only", "idle", "close_connection"), worker_debug=True),
+                        dict(gen_fixed("python", "thread", "blocked", "os_exit"), worker_debug=True), dict(gen_fixed("popen", "thread", "idle", "sigkill"), worker_debug=True)]
     if spec["shard"] == 4:
         extra_fixed += [gen_fixed("popen", "thread", "python_sigint_handler", "sigkill"), gen_fixed("python", "main_thread_only", "python_sigint_ign", "os_exit")]
     if spec["shard"] == 2:
